@@ -132,7 +132,9 @@ impl Profile {
             "C08diff" => {
                 p.w_weak = 30;
                 p.weak_neutral = true;
-                p.fin_pct = 40;
+                // no finalizer scripts: the order in which finalizers run is unspecified (and weak traffic changes the
+                // buffer order), so scripts with side effects would make the two runs diverge legitimately
+                p.fin_pct = 0;
                 p.w_cleaner = 0;
                 p.w_quiet = 8;
                 p.w_motif = 8;
